@@ -203,6 +203,46 @@ fn ob_c13_residue_from(t: bool) {
     assert!(matches!(r, TreeResidue::Tree(())) == t, "C13 EntryResidue maps to the residue of the same kind");
 }
 
+//@ob C20.error.path
+//@ props: C20 C05
+//@ kind: complete
+//@ fns: src/walk/mod.rs::WalkError::path src/walk/mod.rs::WalkErrorKind::path src/walk/mod.rs::WalkError::depth
+//@ pre: a walk error of either kind: an I/O fault with or without a path, or a link cycle with its ancestor (`root`) and the link that re-enters it (`leaf`); any depth
+//@ post: path() names the OFFENDING path: the link itself for a cycle (never the healthy ancestor), the faulting path for an I/O error, None only for an I/O error without a path; depth() is the stored depth
+fn ob_c20_error_path(kind: u8, depth: usize) {
+    vassume!(kind <= 2);
+    let (root, leaf) = (PathBuf::from("r"), PathBuf::from("l"));
+    let (root_ptr, leaf_ptr) = (root.as_os_str().as_encoded_bytes().as_ptr(), leaf.as_os_str().as_encoded_bytes().as_ptr());
+    let error = WalkError {
+        depth,
+        kind: match kind {
+            0 => {
+                core::mem::forget(root);
+                core::mem::forget(leaf);
+                WalkErrorKind::Io { path: None, error: io::Error::from(io::ErrorKind::Other) }
+            },
+            1 => {
+                core::mem::forget(root);
+                WalkErrorKind::Io { path: Some(leaf), error: io::Error::from(io::ErrorKind::Other) }
+            },
+            _ => WalkErrorKind::LinkCycle { root, leaf },
+        },
+    };
+    vcover!(kind == 2);
+    vcover!(kind == 0);
+    match error.path() {
+        None => assert!(kind == 0, "C20 only an I/O error without a path has no path"),
+        Some(path) => {
+            assert!(kind != 0, "C20 no path is invented");
+            let ptr = path.as_os_str().as_encoded_bytes().as_ptr();
+            assert!(core::ptr::eq(ptr, leaf_ptr), "C20 the error names the offending path (the link of a cycle, not its ancestor)");
+            assert!(!core::ptr::eq(ptr, root_ptr), "C20 the healthy ancestor is not blamed");
+        },
+    }
+    assert!(error.depth() == depth, "C20 the depth of the fault is reported as stored");
+    core::mem::forget(error);
+}
+
 //@ob C13.walk.canary
 //@ props: C13
 //@ kind: canary
